@@ -26,6 +26,10 @@ pub uninterp spec fn spec_openable(name: Seq<char>) -> bool;
 pub fn create_raw_fd_from_file(file_name: &str, append: bool) -> (r: Result<i32, String>)
     ensures match r { Ok(_) => spec_openable(file_name@), Err(_) => !spec_openable(file_name@) }
 { unimplemented!() }
+// opening the `<` file (tools::get_fd_from_file: -1 when it cannot be opened, with a message)
+pub uninterp spec fn spec_readable(name: Seq<char>) -> bool;
+#[verifier::external_body]
+pub fn get_fd_from_file(file_name: &str) -> (r: i32) ensures (r == -1) == !spec_readable(file_name@) { unimplemented!() }
 #[verifier::external_body]
 pub fn close(fd: i32) -> (r: i32) { unimplemented!() }
 pub open spec fn file_target(t: Redirection) -> bool { !(t.2@.len() > 0 && t.2@[0] == '&') }
@@ -38,6 +42,7 @@ pub open spec fn all_openable(v: Seq<Redirection>, upto: int) -> bool { forall|i
 RW = [Rw(r'builtins::\w+::run\(', 'vx_builtin_run(', regex=True, count=0, rule='R0',
          why='every builtins::<name>::run call goes to one external function that logs the capture flag it was given'),
       Rw('tools::create_raw_fd_from_file(', 'create_raw_fd_from_file(', required=False, rule='R0'),
+      Rw('tools::get_fd_from_file(', 'get_fd_from_file(', required=False, rule='R0'),
       Rw(r'\bunsafe\s*\{', '{', regex=True, required=False, rule='R14'),
       Rw('libc::close(', 'close(', required=False, rule='R8')]
 LAST = '(capture && idx_cmd + 1 == cl.commands@.len())'
@@ -51,14 +56,19 @@ try_run_builtin = Fn('src/core.rs', 'try_run_builtin', ret='r', pre_rewrites=RW,
         ('C04.blt.unopenable_target_fails_the_builtin_without_running_it',
          'idx_cmd < cl.commands@.len() && !all_openable(cl.commands@[idx_cmd as int].redirects_to@, cl.commands@[idx_cmd as int].redirects_to@.len() as int) '
          '==> final(lg).flags == old(lg).flags && (match r { Some(c) => c.status != 0, None => false })'),
+        ('C04.blt.unreadable_input_file_fails_the_builtin_without_running_it',
+         'idx_cmd < cl.commands@.len() && (match cl.commands@[idx_cmd as int].redirect_from { Some(t) => t.0@ == "<"@ && !spec_readable(t.1@), None => false }) '
+         '==> final(lg).flags == old(lg).flags && (match r { Some(c) => c.status != 0, None => false })'),
     ],
+    # (continued below: the `<` file)
     loops={0: Loop(invariant=[('C04.inv.blt.targets_so_far_openable', 'lg.flags == old(lg).flags && idx_cmd < cl.commands@.len() && *cmd == cl.commands@[idx_cmd as int] && all_openable(cmd.redirects_to@, __I as int)')])},
     )
 in_sub = Fn('src/core.rs', 'try_run_builtin_in_subprocess', ret='r',
     add_params='Tracked(lg): Tracked<&mut BuiltinLog>', ghost_args={'try_run_builtin': 'Tracked(lg)'},
     requires=[('C05.pre.blt.stage_has_a_word2', 'idx_cmd < usize::MAX && forall|i: int| 0 <= i < cl.commands@.len() ==> (#[trigger] cl.commands@[i]).tokens@.len() > 0')],
-    ensures=[('C02+C11.blt.subprocess_builtin_same_rule',
-              'final(lg).flags == old(lg).flags || final(lg).flags == old(lg).flags.push(' + LAST + ')')])
+    # C11 / C02: in a forked stage the builtin writes to its own descriptor 1 (for the last stage of a captured pipeline that is the capture pipe): never captured in-process
+    ensures=[('C02+C11.blt.a_builtin_in_a_forked_stage_is_never_run_in_capture_mode',
+              'final(lg).flags == old(lg).flags || final(lg).flags == old(lg).flags.push(false)')])
 
 UNIT = Unit('U-BLT', TEMPLATE, fns=[try_run_builtin, in_sub, Fn('src/types.rs', 'error', impl='CommandResult', ret='r', ensures=[('C04.cr.error_status', 'r.status == 1')])],
             types=[TypeItem('src/types.rs', 'struct', 'Command'), TypeItem('src/types.rs', 'struct', 'CommandLine'), TypeItem('src/types.rs', 'struct', 'CommandResult')],
